@@ -180,3 +180,43 @@ QUICK_SUBSETS = [(), ('treatment_geos_range',), ('control_geos_range', 'geo_rati
                  ('volume_ratio_tolerance',), ('treatment_share_range',), ('budget_range',),
                  ('budget_range', 'treatment_share_range'), ('treatment_geos_range', 'control_geos_range',
                                                              'geo_ratio_tolerance', 'volume_ratio_tolerance')]
+
+
+def family_space(tier, seed, include, base_kw, methods=('exhaustive_search', 'greedy_search'), k_values=(1, 50),
+                 full3_subsets=((), ('budget_range',), ('treatment_share_range', 'budget_range')), T=12,
+                 dev_d=(2, 3), with5=True):
+    """The standard space of the search-family checks (C01-C04, C13, C14): FULL(2), FULL(3), DEV(4,d), DEV(5,2).
+
+    quick:    FULL(2) x QUICK_SUBSETS x ngm{-,2}; FULL(3) x a few subsets x ngm{-,2}; DEV(4, dev_d[0])
+    thorough: FULL(<=3) x all 64 subsets x ngm{-,2}; DEV(4, dev_d[1]); DEV(5, 2); second panel for DEV(4,2)
+    """
+    thorough = tier == 'thorough'
+    out = []
+    pA2 = {'name': 'A', 'G': 2, 'T': T}
+    pA3 = {'name': 'A', 'G': 3, 'T': T}
+    pB3 = {'name': 'B', 'G': 3, 'T': T}
+    pB4 = {'name': 'B', 'G': 4, 'T': T}
+    pA4 = {'name': 'A', 'G': 4, 'T': T, 'variant': 'shuffled'}
+    pB5 = {'name': 'B', 'G': 5, 'T': T}
+    parts = []
+    if thorough:
+        parts.append(full_configs(pA2, base_kw=base_kw))
+        parts.append(full_configs(pA3, base_kw=base_kw))
+        parts.append(full_configs(pB3, subsets=QUICK_SUBSETS, base_kw=base_kw))
+        parts.append(dev_configs(pB4, dev_d[1], include, base_kw=base_kw, k_values=k_values))
+        parts.append(dev_configs(pA4, 2, include, base_kw=base_kw, k_values=k_values))
+        if with5:
+            parts.append(dev_configs(pB5, 2, include, base_kw=base_kw, k_values=k_values))
+    else:
+        parts.append(full_configs(pA2, subsets=QUICK_SUBSETS, base_kw=base_kw))
+        parts.append(full_configs(pA3, subsets=full3_subsets, base_kw=base_kw))
+        parts.append(dev_configs(pB4, dev_d[0], include, base_kw=base_kw, k_values=k_values))
+    if seed:
+        parts.append(dev_configs({'name': 'C', 'G': 3, 'T': T, 'seed': seed}, 2, include, base_kw=base_kw,
+                                 k_values=k_values))
+    for part in parts:
+        for c in with_methods(part, methods):
+            if precondition_ok(c):
+                out.append(c)
+    out.sort(key=lambda c: (c['deviations'], c['panel']['G']))
+    return out
